@@ -528,6 +528,11 @@ fn resolve_regions(
 
     // Create vftable
     let first_base = regions.iter().map(|t| &t.1).find(|r| r.is_base);
+    // The first base decides whether this type gets a vftable pointer of its own,
+    // so we can't lay anything out until that base has been resolved.
+    if first_base.is_some_and(|b| b.size(&semantic.type_registry).is_none()) {
+        return Ok(None);
+    }
     let (vftable, vftable_region) = vftable::build(
         semantic,
         resolvee_path,
